@@ -199,7 +199,7 @@ pub fn run_c30(ctx: &Ctx) {
         cs.push(if w == 64 { maxc - 1 } else { maxc });
         cs.push(maxc - 2);
         cs.push(maxc / 2);
-        for _ in 0..ctx.tier.pick(6, 30) {
+        for _ in 0..ctx.tier.pick(6, 20) {
             cs.push(seed_rng.below(maxc));
         }
         if w == 64 {
@@ -246,7 +246,7 @@ pub fn run_c30(ctx: &Ctx) {
                     }
                 }
                 elems.extend_from_slice(&[0, 1, P - 1, P - 2, 0xFFFF_FFFE, 0xFFFF_FFFF, 1 << 32]);
-                for _ in 0..ctx.tier.pick(10, 200) {
+                for _ in 0..ctx.tier.pick(10, 120) {
                     elems.push(rng.felt());
                     if *w < 64 {
                         elems.push(rng.below(((top - 1).min(u64::MAX as u128)) as u64 + 1));
